@@ -72,9 +72,17 @@ int main(int argc, char **argv) {
     bool quick = a.get("tier", "quick") == "quick";
 
     std::vector<uint32_t> data;
-    { uint32_t cur = 100; for (int i = 0; i < 20000; ++i) { data.push_back(cur); cur += (uint32_t) rng.below(5); } }
+    // gaps 0..4, and every few hundred elements a run of 20..300 equal keys (longer than any search window: the multiset
+    // queries then gallop, the segmentation feeds guard points, buckets and levels hold repeated starts)
+    std::vector<uint32_t> run_keys;
+    { uint32_t cur = 100;
+      while (data.size() < 20000) {
+          if (rng.chance(1, 300)) { size_t len = 20 + rng.below(281); run_keys.push_back(cur); for (size_t j = 0; j < len; ++j) data.push_back(cur); cur += 1 + (uint32_t) rng.below(4); }
+          else { data.push_back(cur); cur += (uint32_t) rng.below(5); }
+      } }
     std::vector<uint32_t> probes{0u, data.front() - 1, data.front(), data.front() + 1, data.back() - 1, data.back(), data.back() + 1,
                                  std::numeric_limits<uint32_t>::max() - 1, std::numeric_limits<uint32_t>::max() - 2, data[data.size() / 2], 1u, data.back() + 1000};
+    for (size_t i = 0; i < run_keys.size() && i < 60; ++i) { probes.push_back(run_keys[i]); probes.push_back(run_keys[i] + 1); probes.push_back(run_keys[i] - 1); }
     for (int i = 0; i < 600; ++i) probes.push_back(i % 7 == 0 ? (uint32_t) rng.next() : data[rng.below(data.size())] + (uint32_t) rng.below(2));
     std::vector<int> thread_counts = quick ? std::vector<int>{2, 5, 16} : std::vector<int>{2, 3, 4, 7, 8, 12, 16};
     auto pos_hash = [](const pgm::ApproxPos &r) { return mix(mix(mix(7, r.pos), r.lo), r.hi); };
